@@ -194,6 +194,38 @@ func runC13(c *Ctx) {
 
 	// R13.3 queue
 	ruleQueue(c, "R13.3")
+
+	// R13.4 a failed write leaves no state behind in the per-channel writers
+	r.Rule("R13.4", "the per-channel writer objects (frame.Writer, streamwriter.Writer) carry no state from one write to the next except the sequence counter: outside Initialize / constructors the only receiver field they store is nextSeqNumber, "+
+		"and their write functions do not return early on a remembered condition — so a failed write (R13.2: the writer goroutine keeps serving) cannot silence later valid writes", 2)
+	for _, w := range []struct{ pkg, typ string }{{"pkg/frame", "Writer"}, {"pkg/streamwriter", "Writer"}} {
+		o := c.Obj(w.pkg, w.typ)
+		if o == nil {
+			continue
+		}
+		st, ok := o.Type().Underlying().(*types.Struct)
+		if !ok {
+			continue
+		}
+		var bad []string
+		n := 0
+		for i := 0; i < st.NumFields(); i++ {
+			f := st.Field(i)
+			for _, fs := range c.fieldStoresAll(f) {
+				n++
+				fn := fnLocalName(fs.Fn)
+				if strings.HasSuffix(fn, ".Initialize") || strings.HasPrefix(fn, "New") || strings.HasSuffix(fn, ".initialize") {
+					continue
+				}
+				if f.Name() == "nextSeqNumber" {
+					continue
+				}
+				bad = append(bad, fmt.Sprintf("%s stores %s.%s (%s)", fn, w.typ, f.Name(), c.Pos(fs.Store.Pos())))
+			}
+		}
+		r.Check(len(bad) == 0 && n > 0, "R13.4", w.pkg+"."+w.typ+" state", c.Pos(o.Pos()), fmt.Sprintf("%d field stores, all at initialisation or the sequence counter", n),
+			"the writer remembers something across writes: "+strings.Join(bad, "; ")+" — after one failed write every later write on the channel can be refused while the channel stays open")
+	}
 }
 
 // selfInitiatedReturns: Return instructions of a worker loop that are reachable without passing the
